@@ -4,30 +4,40 @@
 EXTENDS Store, Json
 CONSTANTS Owners, Fmts, Seps, Encs, MaxSteps, Emit, NContents
 VARIABLES fs, hist, done
-FmtOK(o, f) == IF o = "lod" THEN f \in {"pickle", "json", "csv"} ELSE TRUE
+FmtOK(o, f) == IF o = "lod" THEN f \in {"pickle", "json", "csv"}
+              ELSE IF o = "geo" THEN f = "geojson" ELSE f # "geojson"
+(* column names of the content classes (the cells are data of the harness; the names decide which restrictions make sense) *)
+ColsOf(k) == CASE k = 5 -> {"a", "b", "c", "d"} [] k = 6 -> {"a", "b", "e"} [] OTHER -> {"a", "b", "c"}
+ExtOK(c) == c.owner = "df" /\ c.fmt \in {"csv", "parquet"}     \* files another program can produce for a reader of ours
 Cfgs == {[owner |-> o, fmt |-> f, sep |-> s, header |-> h, enc |-> n] :
            o \in Owners, f \in Fmts, s \in Seps, h \in BOOLEAN, n \in Encs}
 NormalCfg(c) ==      \* options that a format does not have stay at their defaults
   /\ FmtOK(c.owner, c.fmt)
   /\ (c.fmt # "csv" => c.sep = "," /\ c.header)
-  /\ (c.fmt \notin {"csv", "json"} => c.enc = "utf-8")
-Restrictions == {<<>>, <<"a">>, <<"c", "a">>, <<"b", "c">>, <<"c", "b", "a">>}
+  /\ (c.fmt \notin {"csv", "json", "geojson"} => c.enc = "utf-8")
+Restrictions == {<<>>, <<"a">>, <<"c", "a">>, <<"b", "c">>, <<"c", "b", "a">>, <<"d", "b">>, <<"e", "a">>}
 Init == fs = EmptyFS /\ hist = <<>> /\ done = FALSE
 Write == /\ ~done /\ Len(hist) < MaxSteps
-         /\ \E c \in {x \in Cfgs : NormalCfg(x)}, sf \in Suffixes, st \in {"p", "q"}, k \in 1..NContents :
+         /\ \E c \in {x \in Cfgs : NormalCfg(x)}, sf \in Suffixes, st \in {"p", "q"}, k \in 1..NContents, x \in BOOLEAN :
                LET e == [t |-> "write", owner |-> c.owner, fmt |-> c.fmt, sep |-> c.sep, header |-> c.header, enc |-> c.enc,
-                         stem |-> st, suffix |-> sf, c |-> k] IN
+                         stem |-> st, suffix |-> sf, c |-> k, ext |-> x] IN
+               /\ (x => ExtOK(c) /\ sf = "" /\ c.enc = "utf-8")
+               /\ (~c.header => k # 6)      \* without a header line the reader names the columns a, b, c, ...: class 6 is not so named
                /\ (hist # <<>> => hist[1].owner = c.owner /\ hist[1].fmt = c.fmt)     \* one format per behaviour keeps the space small
                /\ fs' = WriteFS(fs, e) /\ hist' = Append(hist, e)
          /\ done' = FALSE
 Read == /\ ~done /\ Len(hist) < MaxSteps /\ hist # <<>>
-        /\ \E p \in DOMAIN fs, r \in Restrictions, al \in BOOLEAN, cs \in BOOLEAN :
+        /\ \E p \in DOMAIN fs, r \in Restrictions, al \in BOOLEAN, cs \in {"", "float", "object", "str"} :
               LET c == fs[p].cfg
                   e == [t |-> "read", owner |-> c.owner, fmt |-> c.fmt, sep |-> c.sep, header |-> c.header, enc |-> c.enc,
                         stem |-> p[1], suffix |-> p[2], cols |-> r, alias |-> al, cast |-> cs, expect |-> fs[p].c] IN
-              /\ (r # <<>> => c.fmt \in {"csv", "json", "parquet"})          \* readers that take a restriction
-              /\ (cs => c.fmt \in {"csv", "json", "parquet"} /\ (r = <<>> \/ "a" \in Range(r)))   \* ... and a dtype / type mapping (on column a)
-              /\ (al => (c.owner = "df" /\ c.fmt \in {"csv", "npz", "parquet"}) \/ (c.owner = "lod" /\ c.fmt = "json"))
+              /\ (r # <<>> => c.fmt \in {"csv", "json", "parquet", "geojson"} /\ Range(r) \subseteq ColsOf(fs[p].c))   \* readers that take a restriction
+              /\ (cs = "float" => c.fmt \in {"csv", "json", "parquet", "geojson"} /\ (r = <<>> \/ "a" \in Range(r)))   \* ... and a dtype / type mapping (on column a)
+              /\ (cs \in {"object", "str"} => /\ c.owner # "lod" /\ c.fmt \in {"csv", "parquet", "geojson"}          \* ... or on column c
+                                               /\ "c" \in ColsOf(fs[p].c) /\ (r = <<>> \/ "c" \in Range(r)))
+              /\ (al => \/ (c.owner = "df" /\ c.fmt \in {"csv", "npz", "parquet"}) \/ (c.owner = "lod" /\ c.fmt = "json")
+                        \/ c.owner = "geo")
+              /\ (fs[p].ext => r # <<>> \/ al \/ cs # "")               \* foreign files: only the C14 questions are asked
               /\ hist' = Append(hist, e) /\ fs' = fs
         /\ done' = FALSE
 Stop == /\ ~done /\ hist # <<>> /\ hist[Len(hist)].t = "read"
